@@ -1,5 +1,6 @@
 import TIV.Common.Wire
 import TIV.C14.Model
+import TIV.C14.Deco
 /-! driver ops of C14: `sched n proc₀ … procₙ₋₁ k step₁ … stepₖ m flavour₁ … flavourₘ`
     steps: `c<t>` call, `s<t>.<child>` start, `a<t>` advance / return, `w<t>` write a query,
     `d<t>` read a reply part, `r` the terminal delivers a reply part.
@@ -21,6 +22,7 @@ def describe (s : State) (t : Nat) (a : Act) (s' : State) : String :=
       | [] => "x"
   | .call => "call"
   | .start _ => "start"
+  | .raise => "raise"
   | .wr => s!"wr:{s.nextQ}"
   | .rd => match s.outq t, s.repl with
       | some (q, _), r :: _ => s!"rd:{q}:{r.1}.{r.2}"
@@ -55,6 +57,7 @@ def parseStep (tok : String) : Option (Nat × Act) :=
   | ['r'] => some (0, .respond)
   | 'c' :: ds => (String.ofList ds).toNat?.map fun t => (t, .call)
   | 'a' :: ds => (String.ofList ds).toNat?.map fun t => (t, .adv)
+  | 'e' :: ds => (String.ofList ds).toNat?.map fun t => (t, .raise)
   | 'w' :: ds => (String.ofList ds).toNat?.map fun t => (t, .wr)
   | 'd' :: ds => (String.ofList ds).toNat?.map fun t => (t, .rd)
   | 's' :: ds =>
@@ -85,6 +88,20 @@ def summary (s : State) (n np : Nat) : String :=
   let outS := if outs.isEmpty then "-" else String.intercalate "," outs
   s!"inside={insS} cur={String.intercalate "," curs} out={outS} unread={(s.repl ++ s.pend).length}"
 
+def parseDeco (tok : String) : Option Deco.Op :=
+  match tok.toList with
+  | 'n' :: ds => (String.ofList ds).toNat?.map Deco.Op.new
+  | 'd' :: ds => (String.ofList ds).toNat?.map Deco.Op.dec
+  | 'c' :: ds => (String.ofList ds).toNat?.map Deco.Op.call
+  | 'x' :: ds => (String.ofList ds).toNat?.map Deco.Op.drop
+  | _ => none
+
+def pDeco : P Deco.Op := do
+  let t ← word
+  match parseDeco t with
+  | some x => pure x
+  | none => failure
+
 def handler : Handler := fun op args =>
   match op with
   | "sched" => run (do
@@ -99,6 +116,10 @@ def handler : Handler := fun op args =>
       pure (if agree then
         "ok " ++ String.intercalate "|" evs ++ " # " ++ summary e ps.length (maxProc ps steps)
       else "err runSched-disagrees")) args
+  -- `deco k op…`: create (n<i>) / lock_tty (d<i>) / call (c<i>) / drop (x<i>) callables in slots
+  | "deco" => run (do
+      let ops ← listOf pDeco
+      pure ("ok " ++ String.intercalate "|" (Deco.run Deco.empty ops).2)) args
   | "fsched" => run (do
       let ps ← listOf nat
       let steps ← listOf pStep
